@@ -19,6 +19,10 @@ proved (`…_pinned_counterexample`: for every fuel `n` the loop has not left).
 * `protobufs_steps` / `protobufs_halts` `decode_protobufs`
 * `dataStream_pinned_counterexample`   D3a: a complete header with `size = 0` — never leaves
 * `event_pinned_counterexample`        D3b: `b"garbage\r\n\r\n"` — never leaves
+* `httpZ_steps` / `httpZ_halts` / `httpZ_event_steps`  the HTTP loops for ANY integer Content-Length
+                         (negative values slice from the end): the header block is always consumed
+* `control_rounds` / `retransmit_seqs`  RAOP control datagrams: at most 2^16 − 1 rounds, one reduced
+                         sequence number per round
 * `readTlv_steps`        `read_tlv`: at most `len/2 + 1` `_parse` frames (≥ 2 bytes per item)
 * `readVariant_steps`    `read_variant`: at most `len` iterations; the rest returned is the
                          input after exactly that many bytes
@@ -128,6 +132,44 @@ theorem protobufs_halts (b : Bytes) : loopHalts protobufsStep (b.length + 1) b =
 
 /-- two length-prefixed messages, then a length that runs past the end -/
 example : loopSteps protobufsStep 9 [1, 8, 2, 8, 7, 5, 8] = 3 := by decide
+
+/-- **HTTP receive loops, any integer Content-Length** (`int()` accepts "-5"; Python slices then count
+    from the end): for every way of reading the headers (`P`), an iteration that yields a message has
+    consumed at least the header block — so `HttpConnection.data_received` and
+    `EventChannel.handle_received` make at most `len + 1` iterations whatever the header VALUES say. -/
+theorem httpZ_steps (P : HttpParamsZ) (fuel : Nat) (b : Bytes) : drainSteps (httpZ P) fuel b ≤ b.length + 1 :=
+  drain_steps_le (httpZ_progress P) fuel b
+
+theorem httpZ_halts (P : HttpParamsZ) (b : Bytes) : drainHalts (httpZ P) (b.length + 1) b = true :=
+  drain_halts (httpZ_progress P) _ b (by omega)
+
+theorem httpZ_event_steps (P : HttpParamsZ) (fuel : Nat) (b : Bytes) :
+    loopSteps (extStep (httpZ P)) fuel b ≤ b.length + 1 :=
+  loop_steps_le (extStep_consumes (httpZ_progress P)) fuel b
+
+/-- `Content-Length: -100000` on a 12-byte body: the message is delivered and the whole body is left
+    (`body[-100000:]`) — 8 bytes fewer than before, not the same buffer again -/
+example : (sliceFrom [1, 2, 3] (-100000)).length = 3 ∧ sliceTo [1, 2, 3] (-100000) = [] ∧
+    sliceFrom [1, 2, 3] (-1) = [3] ∧ sliceFrom [1, 2, 3] 2 = [3] := by decide
+
+/-- **RAOP control port** (`ControlClient.datagram_received`): one datagram makes at most `2^16 − 1`
+    rounds of the retransmit loop (its 16-bit packet count), the sequence numbers it looks up are
+    reduced modulo `2^16`, one per round. -/
+theorem control_rounds (data : Bytes) (n : Nat) (h : controlRounds data = some n) : n ≤ 65535 :=
+  controlRounds_le data n h
+
+theorem retransmit_seqs (lostSeqno lostPackets : Nat) :
+    (retransmitSeqs lostSeqno lostPackets).length = lostPackets ∧
+      ∀ s ∈ retransmitSeqs lostSeqno lostPackets, s < 65536 := by
+  refine ⟨by simp [retransmitSeqs], ?_⟩
+  intro s hs
+  simp only [retransmitSeqs, List.mem_map] at hs
+  obtain ⟨i, _, rfl⟩ := hs
+  exact Nat.mod_lt _ (by decide)
+
+/-- a request spanning the wrap: 65530 … 65535, 0 … 3 -/
+example : controlRounds [0x80, 0xD5, 0, 1, 0xFF, 0xFA, 0, 10] = some 10 ∧
+    retransmitSeqs 65530 10 = [65530, 65531, 65532, 65533, 65534, 65535, 0, 1, 2, 3] := by decide +kernel
 
 /-- **TLV8 `read_tlv`**: every item takes at least its tag and length byte -/
 theorem readTlv_steps (data : Bytes) : tlvSteps data ≤ data.length / 2 + 1 := tlvSteps_le data
